@@ -176,9 +176,6 @@ Print Assumptions C01_values_in_test_refuted.
 Theorem C01_let_binds_values_refuted : fst (runM 60 w_let_values) <> fst (runS 60 w_let_values) /\ guardb 60 w_let_values = false.
 Proof. exact let_binds_values_refuted. Qed.
 Print Assumptions C01_let_binds_values_refuted.
-Theorem C01_progn_values_refuted : fst (runM 60 w_progn_values) <> fst (runS 60 w_progn_values) /\ guardb 60 w_progn_values = false.
-Proof. exact progn_values_refuted. Qed.
-Print Assumptions C01_progn_values_refuted.
 Theorem C01_mapcar_values_refuted : fst (runM 60 w_mapcar_values) <> fst (runS 60 w_mapcar_values) /\ guardb 60 w_mapcar_values = false.
 Proof. exact mapcar_values_refuted. Qed.
 Print Assumptions C01_mapcar_values_refuted.
@@ -218,3 +215,16 @@ Print Assumptions C01_dotimes_negative_count_zero.
 Theorem C01_dotimes_variable_is_iteration_count : forall k, Z.max k 0 = Z.of_nat (List.length (seq 0 (Z.to_nat k))).
 Proof. exact dotimes_iterations. Qed.
 Print Assumptions C01_dotimes_variable_is_iteration_count.
+
+(* progn (repo_fixes/C01-10): in every mode progn evaluates its forms in sequence and its result is the result of the
+   last form with ALL its values - (progn e) is e -; the former witness now yields (1 2). *)
+Theorem C01_progn_is_sequence : forall m n st sc es, eval m (S n) st sc (EProgn es) = ev_seq (eval m n) st sc es VNil.
+Proof. exact progn_is_sequence. Qed.
+Print Assumptions C01_progn_is_sequence.
+Theorem C01_progn_passes_all_values : forall m n st sc e, eval m (S n) st sc (EProgn [e]) = eval m n st sc e.
+Proof. exact progn_single. Qed.
+Print Assumptions C01_progn_passes_all_values.
+Theorem C01_progn_values_passed :
+  forallb (fun m => match fst (run m 60 w_progn_values) with Ok (VList [VInt 1; VInt 2]) => true | _ => false end) [Slip; Ref; Chk] = true.
+Proof. exact progn_values_passed. Qed.
+Print Assumptions C01_progn_values_passed.
